@@ -42,7 +42,9 @@ RULE = ("exhaustive: (A) every history of <= 2 (quick) / <= 3 (thorough) single-
         "Real runs: plans of 1-3 optimizer steps (slsqp, l-bfgs-b, nelder-mead, differential_evolution serial and parallel = several "
         "results per event) and evaluator steps (several vectors in one call), with NaN injections, realization_min_success=0, "
         "maximisation and/or positive scaling of the objective, scaling of the non-linear constraint, trackers on subsets of the "
-        "steps; nested optimizations (trackers on the outer and on the nested plan, the nested plan also run stand-alone first); "
+        "steps; (E) exhaustive: an evaluator step with transforms on every batch of 3 vectors over {good, worse, completely failed = no "
+        "functions, infeasible}; in every real run the delivered results must be, position by position, the back-transformed "
+        "versions of the delivered transformed results; nested optimizations (trackers on the outer and on the nested plan, the nested plan also run stand-alone first); "
         "BasicOptimizer objects run 1-4 times (tolerance None/0/positive/defaulted; runs in which every evaluation fails, every "
         "result is infeasible, or the abort callback fires before the first / after k evaluations, in any order with normal runs): "
         "results (identity or None), variables and exit code are read after EVERY run, results compared with the model (fresh "
@@ -232,6 +234,7 @@ def _eval_step(rng, base=None):
     s["kind"] = "evaluator"
     s["constraint"] = rng.random() < 0.7
     s["nan_calls"] = []
+    s["min_success"] = rng.choice([0, 1, 1])     # 1: a vector whose realizations all fail has NO functions
     s["points"] = [[rng.choice([-0.5, 0.0, 0.25, 0.5, 0.75]), rng.choice([-0.5, -0.25, 0.0, 0.25, NAN_MARK, NAN_MARK])]
                    for _ in range(rng.choice([1, 2, 3, 3, 4]))]
     return s
@@ -241,6 +244,24 @@ def _eval_step(rng, base=None):
 BASIC_SCRIPTS = [["normal"], ["normal"], ["abort2"], ["abort5"], ["normal", "normal"], ["normal", "fail"], ["normal", "abort0"],
                  ["normal", "infeasible"], ["normal", "fail", "normal", "abort0"], ["fail", "normal", "infeasible"],
                  ["abort0", "normal", "abort0"], ["normal", "abort2", "fail", "normal"], ["normal", "infeasible", "abort0"]]
+_EV_POINTS = {"good": [0.5, -0.25], "worse": [-0.5, 0.25], "failed": [0.0, NAN_MARK], "infeasible": [0.75, 0.25]}
+
+
+def _eval_batch_cases(tier):
+    """An evaluator step WITH transforms evaluating a batch of 3 vectors: every vector good / worse / completely failed
+    (no functions) / infeasible, in every position; observed by best and last trackers with and without tolerance."""
+    variants = [(True, 4.0, 1.0), (False, 0.5, 4.0)] if tier == "quick" else \
+               [(True, 4.0, 1.0), (False, 0.5, 4.0), (True, 1.0, 0.25), (False, 1.0, 1.0)]
+    for maximize, oscale, cscale in variants:
+        for kinds in itertools.product(sorted(_EV_POINTS), repeat=3):
+            points = [[_EV_POINTS[k][0] + 0.03125 * pos, _EV_POINTS[k][1]] for pos, k in enumerate(kinds)]
+            step = {"kind": "evaluator", "method": "slsqp", "maximize": maximize, "oscale": oscale, "cscale": cscale,
+                    "constraint": True, "con_upper": 0.3125, "target": [0.75, -0.5], "start": [0.0, 0.0], "seed": 7,
+                    "max_functions": 4, "nan_calls": [], "parallel": False, "min_success": 1, "points": points}
+            yield {"kind": "plan", "steps": [step],
+                   "handlers": [["best", TOL, [0]], ["last", TOL, [0]], ["best", None, [0]], ["last", None, [0]]]}
+
+
 _FORCED = [("differential_evolution", True, ["normal", "fail", "normal", "abort0"]), ("slsqp", None, ["normal", "infeasible"]),
            ("differential_evolution", False, ["normal", "infeasible", "abort0"]), ("nelder-mead", None, ["normal", "abort0", "normal"])]
 
@@ -301,6 +322,7 @@ def gen_cases(tier, rng):
     light.extend(_batch_cases(tier))
     light.extend(_resume_cases(tier))
     light.extend(_near_tie_cases())
+    light.extend(_eval_batch_cases(tier))
     if quick:
         for _ in range(700):
             light.append(_ex_case([rng.randrange(len(LETTERS)) for _ in range(3)], rng.choice(["id", "neg"])))
@@ -552,7 +574,7 @@ def _problem(step, mask=None):
     config = {
         "variables": {"initial_values": step["start"], "lower_bounds": [-1.0, -1.0], "upper_bounds": [1.0, 1.0]},
         "optimizer": {"method": step["method"], "max_functions": step["max_functions"], "parallel": step["parallel"]},
-        "realizations": {"weights": [1.0, 1.0], "realization_min_success": 0},
+        "realizations": {"weights": [1.0, 1.0], "realization_min_success": int(step.get("min_success", 0))},
         "gradient": {"number_of_perturbations": 3, "seed": step["seed"]},
     }
     if mask is not None:
@@ -589,6 +611,25 @@ def _problem(step, mask=None):
     return config, transforms, evaluate
 
 
+def _mispaired(results, partners):
+    """Why the delivered user-domain results are NOT, position by position, the back-transformed versions of the
+    delivered optimizer-domain results (None when they are).  The drivers use no variable transform, so a result and
+    its transformed version are of the same class, both with or both without functions, at the same variables."""
+    import numpy as np
+    if partners is None:
+        return None
+    if len(results) != len(partners):
+        return f"{len(results)} results but {len(partners)} transformed results"
+    for k, (u, t) in enumerate(zip(results, partners)):
+        if type(u) is not type(t):
+            return f"position {k}: {type(u).__name__} paired with {type(t).__name__}"
+        if (getattr(u, "functions", None) is None) != (getattr(t, "functions", None) is None):
+            return f"position {k}: functions present in only one of the pair"
+        if not np.array_equal(u.evaluations.variables, t.evaluations.variables):
+            return f"position {k}: result at {u.evaluations.variables.tolist()} paired with one at {t.evaluations.variables.tolist()}"
+    return None
+
+
 class _Recorder:
     """Observer of every event of a real run: what was delivered (read back from the real objects) and what every
     tracker holds right after the event."""
@@ -597,6 +638,7 @@ class _Recorder:
         self.steps, self.path_of, self.trackers = steps, path_of, trackers
         self.ident = _Ident()
         self.history, self.held = [], [[] for _ in trackers]
+        self.mispaired = None
 
     def __call__(self, event):
         has_r = "results" in event.data
@@ -605,8 +647,11 @@ class _Recorder:
         if has_r:
             results = event.data["results"]
             partners = event.data.get("transformed_results")
+            bad = _mispaired(results, partners)
+            if bad is not None and self.mispaired is None:
+                self.mispaired = {"event": len(self.history), "why": bad}
             for k, u in enumerate(results):
-                t = partners[k] if partners is not None else None
+                t = partners[k] if partners is not None and k < len(partners) else None
                 items.append({"id": self.ident.add(u, t), "u": _facet(u), "t": _facet(t) if t is not None else None})
         src = self.steps.index(event.source)
         self.history.append(["emit", {"type": event.event_type.name, "tval": event.event_type.value, "src": src,
@@ -655,7 +700,7 @@ def _run_plan(case):
     for sid, step in zip(steps, case["steps"]):
         current["counter"] = [0]
         exits.append(_run_one_step(plan, sid, step, current))
-    return {"history": rec.history, "held": rec.held, "exits": exits, "handlers": effective}
+    return {"history": rec.history, "held": rec.held, "exits": exits, "handlers": effective, "mispaired": rec.mispaired}
 
 
 def _run_nested(case):
@@ -704,7 +749,7 @@ def _run_nested(case):
     code = outer.run_step(s_out, config=EnOptConfig.model_validate(config, context=transforms), transforms=transforms,
                           nested_optimization=inner)
     exits.append(getattr(code, "name", str(code)))
-    return {"history": rec.history, "held": rec.held, "exits": exits, "handlers": effective}
+    return {"history": rec.history, "held": rec.held, "exits": exits, "handlers": effective, "mispaired": rec.mispaired}
 
 
 def _basic_script(case):
@@ -735,6 +780,7 @@ def _run_basic(case):
     tval = EventType.FINISHED_EVALUATION.value
     what, tol, sources, _, flags = _hspec(case["handlers"][0])
     mode = {"now": "normal", "abort": None}
+    mis = {"first": None}
 
     def evaluator(variables, ctx):
         out = evaluate(variables, ctx, counter)
@@ -745,9 +791,12 @@ def _run_basic(case):
         return out
 
     def callback(results, transformed):
+        bad = _mispaired(results, transformed if transformed else None)
+        if bad is not None and mis["first"] is None:
+            mis["first"] = {"event": len(history), "why": bad}
         items = []
         for k, u in enumerate(results):
-            t = transformed[k] if transformed else None
+            t = transformed[k] if transformed and k < len(transformed) else None
             items.append({"id": ident.add(u, t), "u": _facet(u), "t": _facet(t) if t is not None else None})
         history.append(["emit", {"type": "FINISHED_EVALUATION", "tval": tval, "src": 0, "path": [0], "has_results": True,
                                  "has_transformed": bool(transformed), "items": items}])
@@ -779,7 +828,7 @@ def _run_basic(case):
         if mode["abort"] == 0 and opt.exit_code.name != "USER_ABORT":
             exit_ok = False
     return {"history": history, "held": [held], "exits": exits, "variables_ok": bool(var_ok), "exit_ok": bool(exit_ok),
-            "result_without_events": False, "handlers": [[what, tol, sources, 0]]}
+            "result_without_events": False, "handlers": [[what, tol, sources, 0]], "mispaired": mis["first"]}
 
 
 def run_impl(case):
@@ -895,6 +944,9 @@ def oracle(case, obs):
     """The property text on the observation.  Per tracker: the results delivered so far by a tracked source on the
     tracker's plan or a plan nested below it; 'best' must hold a feasible function result whose optimizer-domain
     objective is the lowest of them (any tied one), nothing iff there is none; 'last' the most recent feasible one."""
+    if obs.get("mispaired") is not None:
+        # "the weighted objective in the domain the optimizer minimizes" of a delivered result is that of ITS transformed version
+        return {"clause": "delivered-results-not-paired-with-their-transformed-versions", "detail": obs["mispaired"]}
     if case["kind"] == "basic":
         if not obs["variables_ok"]:
             return {"clause": "basic-optimizer-variables-not-of-reported-result", "detail": None}
